@@ -95,6 +95,8 @@ var (
 	arrayPattern      *regexp.Regexp
 	pipePattern       *regexp.Regexp
 	topLevelFunctions TopLevelFunction
+
+	functionNamePattern = regexp.MustCompile(`^\w+$`)
 )
 
 func init() {
@@ -289,7 +291,9 @@ func ParsePipe(match string) ([]*PipeSelector, error) {
 func ParseSelector(selector string) ([]any, error) {
 	functions := strings.SplitN(selector, "=>", 2)
 	slice := make([]any, 0)
-	if len(functions) == 2 {
+	// a top level function is a bare name in front of the selector; the `keep=>` of an
+	// index selector such as x[keep=>each:0] is not one
+	if len(functions) == 2 && functionNamePattern.MatchString(functions[0]) {
 		selector = functions[1]
 		slice = append(slice, TopLevelFunctionSelector(functions[0]))
 	}
